@@ -17,6 +17,10 @@ TABLES = {
     "vcf": dict(dc=("bionumpy.datatypes", "VCFWithInfoAsStringEntry"), buf=("bionumpy.io.vcf_buffers", "VCFWithInfoAsStringBuffer"),
                 cols=[("chromosome", "id"), ("position", "int"), ("id", "str"), ("ref_seq", "str"), ("alt_seq", "str"), ("quality", "str"),
                       ("filter", "str"), ("info", "str")], header=True),
+    # the plain VCF entry (its INFO column is declared Union[parsed table, text]) built in memory with the INFO column as text
+    "vcf_entry": dict(dc=("bionumpy.datatypes", "VCFEntry"), buf=("bionumpy.io.vcf_buffers", "VCFBuffer"),
+                      cols=[("chromosome", "id"), ("position", "int"), ("id", "str"), ("ref_seq", "str"), ("alt_seq", "str"), ("quality", "str"),
+                            ("filter", "str"), ("info", "str")], header=True),
     "gtf": dict(dc=("bionumpy.datatypes", "GTFEntry"), buf=("bionumpy.io.delimited_buffers", "GTFBuffer"),
                 cols=[("chromosome", "id"), ("source", "str"), ("feature_type", "id"), ("start", "int"), ("stop", "int"), ("score", "str"),
                       ("strand", "strand"), ("phase", "str"), ("atributes", "str")]),
@@ -142,6 +146,7 @@ class Write(Harness):
              "bed6": [[[1, 0, 0, 2, 0, 0]], [[2, 0, 0, 1, 0, 0], [1, 0, 0, 3, 0, 0]]],
              "chromsizes": [[[1, 0], [4, 0]]],
              "vcf": [[[1, 0, 1, 1, 2, 1, 1, 3]], [[2, 0, 1, 2, 1, 1, 4, 1], [1, 0, 2, 1, 1, 1, 1, 2]]],
+             "vcf_entry": [[[1, 0, 1, 1, 2, 1, 1, 3], [2, 0, 2, 1, 1, 1, 1, 1]]],
              "gtf": [[[1, 2, 1, 0, 0, 1, 0, 1, 3], [2, 1, 4, 0, 0, 1, 0, 1, 1]]],
              "bed12": [[[1, 0, 0, 1, 0, 0, 0, 0, 1, 0, 2, 2], [2, 0, 0, 1, 0, 0, 0, 0, 1, 0, 1, 1], [1, 0, 0, 2, 0, 0, 0, 0, 1, 0, 3, 3]],
                        # records whose lists are EMPTY: in the middle and at the end of the table
@@ -292,7 +297,7 @@ class Write(Harness):
             row = []
             for c, (nm, kind) in enumerate(cols):
                 if kind == "int":
-                    row.append(("int", g(f"t{r}_{c}"), 1 if (tab == "vcf" and nm == "position") else 0))
+                    row.append(("int", g(f"t{r}_{c}"), 1 if (tab in ("vcf", "vcf_entry") and nm == "position") else 0))
                 elif kind == "strand":
                     row.append(("strand", g(f"t{r}_{c}")))
                 elif kind == "ilist":
@@ -307,7 +312,7 @@ class Write(Harness):
     def _check_bytes(self, skel, x, got, conj):
         """got: list of bytes written (concrete separators, symbolic payload).  Appends constraints; returns False on a
         structural mismatch."""
-        head = list(VCF_DEFAULT_HEADER.encode()) if skel["table"] == "vcf" else []
+        head = list(VCF_DEFAULT_HEADER.encode()) if skel["table"] in ("vcf", "vcf_entry") else []
         if got[:len(head)] != head:
             return False
         body = got[len(head):]
@@ -366,7 +371,7 @@ class Write(Harness):
 
     def _concat_expected(self, skel, single):
         """the bytes of one write, followed by its record lines from the second record on (lines end with the concrete byte 10)"""
-        n_header = 2 if skel["table"] == "vcf" else 0
+        n_header = 2 if skel["table"] in ("vcf", "vcf_entry") else 0
         ends = [i for i, b in enumerate(single) if isinstance(b, int) and b == 10]
         start_second = ends[n_header] + 1          # first byte after the first record's line
         return list(single) + list(single[start_second:])
@@ -411,7 +416,7 @@ class Write(Harness):
     def oracle(self, skel, cx, cout):
         if isinstance(cout, Exc):
             return f"raised {cout}"
-        exp = list(VCF_DEFAULT_HEADER.encode()) if skel["table"] == "vcf" else []
+        exp = list(VCF_DEFAULT_HEADER.encode()) if skel["table"] in ("vcf", "vcf_entry") else []
         for line in self._lines(skel, lambda nm: cx[nm]):
             for k, cell in enumerate(line):
                 if cell[0] == "text":
@@ -448,4 +453,63 @@ class Write(Harness):
         return None
 
 
-HARNESSES = [Write()]
+from checks.C02 import VCF as _VCF, VCF_HEADER as _VCF_HEADER
+
+
+class ParsedInfoWrite(_VCF):
+    """a VCF whose header declares its INFO keys, read eagerly (INFO parsed into a table of typed columns), written again: the records
+    written are the records read"""
+    name = "parsed_info_write"
+    functions = ("VCFBuffer.from_data", "DelimitedBuffer.from_data", "dump_csv.get_column", "VCFBuffer._get_info_field (read side as in C02)")
+    bounds = {"quick": "sites-only VCF (INFO is the last column) with declared INFO keys, 1-2 records with symbolic CHROM/POS/ID/REF/ALT/FILTER "
+                       "bytes and a symbolic 1-2 digit DP; read with lazy=False; the whole table and the selection [1:]",
+              "thorough": "same"}
+
+    def skeletons(self, tier, seed):
+        R = lambda pos, dpw, info: dict(chrom=1, pos=pos, id=1, ref=1, alt=1, info=info, dpw=dpw, fmt="GT", samples=[])
+        out = []
+        for recs in ([R(1, 1, "dp")], [R(2, 2, "dp"), R(1, 1, "fl_dp")]):
+            for select in (None,) + (((1,),) if len(recs) > 1 else ()):
+                out.append(dict(recs=recs, buffer="VCFBuffer", crlf=False, prior=None, no_samples=True, select=select))
+        return out
+
+    def call(self, skel, x, ctx):
+        from bionumpy.io.parser import NumpyFileReader
+        from bionumpy.io.npdataclassreader import NpDataclassReader
+        import bionumpy.io.vcf_buffers as vb
+        vb.VCFBuffer.vcfentry_cache.clear()
+        vb.VCFBuffer.info_cache.clear()
+        d = NpDataclassReader(NumpyFileReader(ctx.file(self._content(skel, x)), vb.VCFBuffer), lazy=False).read()
+        if skel.get("select") is not None:
+            d = d[list(skel["select"])]
+        return dict(written=ctx.lst(vb.VCFBuffer.from_data(d).raw()))
+
+    def _expected(self, skel, x):
+        header = _VCF_HEADER.replace("\tFORMAT\tS1\tS2", "")
+        body = self._content(skel, x)[len(header.encode()):]
+        lines, cur = [], []
+        for b in body:
+            cur.append(b)
+            if isinstance(b, int) and b == 10:
+                lines.append(cur); cur = []
+        keep = range(len(lines)) if skel.get("select") is None else skel["select"]
+        return [b for i in keep for b in lines[i]]
+
+    def post(self, skel, x, out):
+        if isinstance(out, Exc):
+            return False
+        exp = self._expected(skel, x)
+        if len(out["written"]) != len(exp):
+            return False
+        return z_and([TI(a) == (b.t if hasattr(b, "t") else b) for a, b in zip(out["written"], exp)])
+
+    def oracle(self, skel, cx, cout):
+        text = bytes(self._content(skel, cx))
+        if isinstance(cout, Exc):
+            return f"VCF {text[-40:]!r} (INFO keys declared in the header) read eagerly and written again: raised {cout}"
+        exp = bytes(self._expected(skel, cx))
+        got = bytes(int(b) for b in cout["written"])
+        return None if got == exp else f"VCF read eagerly and written again: records written {got!r}, records read {exp!r}"
+
+
+HARNESSES = [Write(), ParsedInfoWrite()]
